@@ -107,6 +107,33 @@ def s6(chk: Check, proj: Project, w) -> None:
     chk.ob("S6", "dependencies:set_component_attrs_for_js_and_css:always-through-the-html-parser", dm.loc(rets[0]) if rets else dm.loc(df), okr,
            "one return; the child map it returns is the second result of set_html_attributes, which is called unconditionally" if okr else
            "the function can return without (or with something other than) the HTML parser's child map: a shortcut that derives the children from a regex match reports only part of the nested components, so the others' root elements lack the enclosing component's id")
+    # list-content flow: what reaches set_html_attributes(root_attributes=...)
+    from .markers import root_attr_elems
+
+    _m, _f, _call, elems = root_attr_elems(proj)
+    if elems is None:
+        chk.undecided("S6", "dependencies:set_component_attrs_for_js_and_css:root-attribute-list", dm.loc(pc[0]) if pc else dm.loc(df), "construction of the root-attribute list not understood")
+    else:
+        ps = params(df)
+        inherited = [e for e in elems if e.opaque and any(isinstance(x, ast.Name) and x.id in ps for x in ast.walk(e.expr))]
+        oki = bool(inherited) and all(not e.kills and all(pol and isinstance(t, ast.Name) and t.id == norm(e.expr) for t, pol in e.cond) for e in inherited)
+        chk.ob("S6", "dependencies:set_component_attrs_for_js_and_css:inherited-attributes-kept", dm.loc(inherited[0].expr) if inherited else dm.loc(df), oki,
+               f"everything in `{norm(inherited[0].expr)}` (the ids handed down by the parents) is put on this component's roots" if oki else
+               "the attributes handed down by the parent do not reach the root-attribute list on every path: a root element of a nested component lacks the enclosing components' ids")
+        own = [e for e in elems if not e.opaque]
+        for e in own:
+            names = {x.id for x in ast.walk(e.expr) if isinstance(x, ast.Name)} & set(ps)
+            extra = [(t, pol) for t, pol in e.cond if not (pol and isinstance(t, ast.Name) and t.id in names)]
+            okown = not extra and not e.kills
+            why = ""
+            if e.kills:
+                why = "it is replaced when `" + " and ".join(("" if pol else "not ") + norm(t) for t, pol in e.kills[0]) + "`"
+            elif extra:
+                why = "it is added only if additionally `" + ("" if extra[0][1] else "not ") + norm(extra[0][0]) + "`"
+            chk.ob("S6", f"dependencies:set_component_attrs_for_js_and_css:own-attribute-{norm(e.expr)[:40]}", dm.loc(e.expr), okown,
+                   f"`{norm(e.expr)}` is on the root list whenever `{'/'.join(sorted(names)) or 'always'}` is given" if okown else
+                   f"`{norm(e.expr)}` does not always reach the root elements: {why} - e.g. a component with CSS variables (get_css_data) has no `data-djc-id-<render id>` on any of its roots, and a nested component that is one of its roots does not inherit the id either")
+        chk.floor("S6-own-attributes", len(own), 2)
     pm, pf = proj.func("perfutil.component", "component_post_render")
     loopfn = None
     for c in calls(pf):
@@ -399,6 +426,27 @@ def s2(chk: Check, proj: Project, w) -> None:
     src_ok = any(isinstance(c.func, ast.Name) and c.func.id == "urandom" or (dotted(c.func) or "").startswith(("os.urandom", "secrets.")) for c in calls(nf))
     chk.ob("S2", "util.nanoid:generate:entropy-source", nm.loc(nf), src_ok and not uses_random,
            "ids are drawn from os.urandom / secrets" if src_ok and not uses_random else "ids are drawn from the global `random` module: application code that seeds it (random.seed(x)) during a render makes later ids repeat, so two instances share an id")
+    # every id has the FULL length: a return is reached only under `len(id) == size`
+    szp = params(nf)[1] if len(params(nf)) > 1 else "size"
+    rets = [r for r in ast.walk(nf) if isinstance(r, ast.Return)]
+    short_rets = [r for r in rets if not any(pol and re.fullmatch(rf"len\((\w+)\) (==|>=) {szp}", t) and r.value is not None and norm(r.value) == re.fullmatch(rf"len\((\w+)\) (==|>=) {szp}", t).group(1) for t, pol in cond_atoms(r))]
+    fell = not always_exits(nf.body)
+    chk.ob("S2", "util.nanoid:generate:full-length", nm.loc(short_rets[0]) if short_rets else nm.loc(nf), not short_rets and not fell and bool(rets),
+           f"every return is guarded by `len(id) == {szp}` and the function cannot fall off its end: ids always have the length the reader patterns expect" if not short_rets and not fell and rets else
+           f"`{short(short_rets[0]) if short_rets else 'end of function'}` can return an id with fewer than `{szp}` characters (when too many random bytes fall outside the alphabet, about 1 in 150 000 ids): the fixed-width reader patterns never match it, the instance's output vanishes and its placeholder stays in the page")
+    # every coercion of a slot reference renders the slot AGAIN: its content may hold {% component %} tags and each rendering
+    # of a tag is an instance with its own id and its own one-shot placeholder
+    sm = proj.mod("slots")
+    sr = sm.cls("SlotRef")
+    st_ = next((x for x in sr.body if isinstance(x, ast.FunctionDef) and x.name == "__str__"), None)
+    if st_ is None:
+        chk.undecided("S2", "slots:SlotRef.__str__:renders-every-time", sm.loc(sr), "SlotRef.__str__ not found")
+    else:
+        chk.analysed(f"{sm.name}:SlotRef.__str__")
+        memo = [x for x in ast.walk(st_) if isinstance(x, ast.Attribute) and isinstance(x.ctx, ast.Store)] + [r for r in ast.walk(st_) if isinstance(r, ast.Return) and r.value is not None and not any(isinstance(c, ast.Call) and last_attr(c.func) == "render" for c in ast.walk(r.value)) and not (isinstance(r.value, ast.Name) and any(isinstance(v, ast.Call) and any(last_attr(c.func) == "render" for c in ast.walk(v) if isinstance(c, ast.Call)) for _s, v in assignments(st_, r.value.id) if v is not None))]
+        chk.ob("S2", "slots:SlotRef.__str__:renders-every-time", sm.loc(memo[0]) if memo else sm.loc(st_), not memo,
+               "str(slot_ref) calls nodelist.render(...) on every use and keeps nothing" if not memo else
+               f"`{short(memo[0] if isinstance(memo[0], ast.stmt) else enclosing_stmt(memo[0]))}` remembers the rendered slot: `{{{{ orig }}}}{{{{ orig }}}}` in a fill whose default content holds a {{% component %}} puts ONE instance (one id, one placeholder) at two places - the second substitution finds its renderer already consumed (KeyError)")
 
 
 def s3(chk: Check, proj: Project, w) -> None:
